@@ -1,6 +1,7 @@
 import Logrange.Proofs.TIndexLts
 import Logrange.Proofs.TIndexProg
 import Logrange.Proofs.TIndexDnr
+import Logrange.Proofs.TIndexWr
 import Logrange.Generated.C14
 /-!
 # C14 — A partition is never deleted, re-created or left locked while someone uses it
@@ -579,6 +580,105 @@ theorem bounded_wait (x z : Sys) (h : Reach x) (as : List Nat) (b s : Nat) (hl :
   intro a hc hn
   have hy' : Reach y' := Reach.step (reach_run r1 h) s1.toStep
   exact waiter_proceeds_when_free y' hy' a hc s hn f
+
+/-! ### the per-partition write lock of `partition.Service.Write` (`wrLocks`, since 25f9816 / 3e8b3c3)
+
+`Model/TIndexProgWr.lean`: the system of caller programs extended by the write mutex of every partition — a writer takes it
+AFTER its tag-index acquisition and gives it back right after its `Release`; nobody else takes it. -/
+
+open Logrange.TIndexProg in
+/-- the extension changes nothing for the tag index: every state of the extended system projects to a reachable state of
+the system of caller programs — so every theorem above (protocol, balance, exclusive means alone, …) holds with the write
+lock in place -/
+theorem write_lock_conservative (z : SysW) (h : ReachW z) : Reach z.x := reachW_reach h
+
+open Logrange.TIndexProg in
+/-- **The write lock adds no wait-for cycle**: in every reachable state of the extended system in which some caller has
+not returned, some step is possible that is not a pure wait. Lock order: tag-index acquisition → write lock. The holder of a
+write lock stands right before its `Release`, which never blocks (it holds an acquisition, so the partition is not
+exclusively locked by anybody else); a writer waiting for the write lock waits only for that holder; everybody else waits
+as before, only behind `deleteJournal`'s straight-line exclusive section — and `deleteJournal` never takes a write lock. -/
+theorem write_lock_no_deadlock (z : SysW) (h : ReachW z) (a : Nat) (hc : z.x.ctl a ≠ .fin) :
+    ∃ z', StepW z z' ∧ MovesW z z' := by
+  have hr := reachW_reach h
+  have hi := winv_reach h
+  by_cases h1 : ∃ b s, z.ph b = some (s, true)
+  · -- somebody holds a write lock: its `Release` (+ unlock) is enabled
+    obtain ⟨b, s, hp⟩ := h1
+    have hcb := hi.ctl b s true hp
+    have ho : (Lbl.release b s, Ctl.fin) ∈ pnext b z.x.st (z.x.ctl b) := by simp [hcb, pnext, relThen]
+    obtain ⟨st', hs⟩ := callers_follow_protocol z.x hr b _ _ ho
+    refine ⟨_, StepW.rel (y := ⟨st', upd z.x.ctl b .fin⟩) b s hp ⟨_, _, ho, hs, rfl⟩, Or.inl ?_⟩
+    intro e
+    have := congrFun e b
+    simp only [upd_same] at this
+    rw [hcb] at this; cases this
+  · by_cases h2 : ∃ b s, z.ph b = some (s, false)
+    · -- nobody holds any write lock, so a waiting writer gets the one it wants
+      obtain ⟨b, s, hp⟩ := h2
+      have hfree : z.wr s = none := by
+        cases hw : z.wr s with
+        | none => rfl
+        | some c => exact absurd ⟨c, s, hi.own s c hw⟩ h1
+      refine ⟨_, StepW.take b s hp hfree, Or.inr (Or.inr ?_)⟩
+      intro e
+      have := congrFun e b
+      simp only [upd_same] at this
+      rw [hp] at this; simp at this
+    · -- no writer is between its acquisition and its `Release`: the system of caller programs as before
+      have hnone : ∀ b, z.ph b = none := by
+        intro b
+        cases hb : z.ph b with
+        | none => rfl
+        | some sb =>
+          obtain ⟨s, bb⟩ := sb
+          cases bb with
+          | true => exact absurd ⟨b, s, hb⟩ h1
+          | false => exact absurd ⟨b, s, hb⟩ h2
+      obtain ⟨b, l, c', ho, st', hs, hm⟩ := no_deadlock z.x hr a hc
+      refine ⟨_, StepW.base (y := ⟨st', upd z.x.ctl b c'⟩) b (hnone b) ⟨l, c', ho, hs, rfl⟩, ?_⟩
+      rcases hm with hm | hm
+      · left; intro e
+        have := congrFun e b
+        simp only [upd_same] at this
+        exact hm this
+      · right; left; exact hm
+
+/-! non-vacuity of the write-lock theorems -/
+namespace WrExample
+open Logrange.TIndexProg
+
+/-- two writers to the same tags -/
+def ctlW : Nat → Ctl := fun a => if a = 1 then .acqTags 7 true else if a = 2 then .acqTags 7 true else .fin
+def u1 : St := (step init (.getOrCreate 1 7 true)).getD init
+def u2 : St := (step u1 (.getOrCreate 2 7 true)).getD init
+def z0 : SysW := ⟨⟨init, ctlW⟩, fun _ => none, fun _ => none⟩
+def y1 : Sys := ⟨u1, upd ctlW 1 (.rel 0 [] .fin)⟩
+def z1 : SysW := ⟨y1, z0.wr, upd z0.ph 1 (mark (z0.x.ctl 1) (y1.ctl 1))⟩
+def z2 : SysW := ⟨z1.x, upd z1.wr 0 (some 1), upd z1.ph 1 (some (0, true))⟩
+def y3 : Sys := ⟨u2, upd y1.ctl 2 (.rel 0 [] .fin)⟩
+def z3 : SysW := ⟨y3, z2.wr, upd z2.ph 2 (mark (z2.x.ctl 2) (y3.ctl 2))⟩
+
+theorem reach_z3 : ReachW z3 := by
+  have h0 : ReachW z0 := ReachW.start ctlW (by
+    intro a; unfold ctlW; split
+    · simp [isEntry]
+    · split <;> simp [isEntry])
+  have h1 : ReachW z1 := ReachW.step h0 (StepW.base 1 rfl ⟨.getOrCreate 1 7 true, .rel 0 [] .fin,
+    by simp [pnext, z0, ctlW, init, findTags], rfl, rfl⟩)
+  have h2 : ReachW z2 := ReachW.step h1 (StepW.take 1 0 (by decide) rfl)
+  exact ReachW.step h2 (StepW.base 2 (by decide) ⟨.getOrCreate 2 7 true, .rel 0 [] .fin, by
+    have hf : findTags u1.c.parts 7 u1.c.next = some 0 := by decide
+    have hp : u1.c.parts 0 = some ⟨7, 1, false⟩ := by decide
+    have hd : u1.done = false := rfl
+    simp [pnext, z2, z1, y1, upd, ctlW, hf, hp, hd], rfl, rfl⟩)
+
+/-- writer 1 holds the write lock of partition 0, writer 2 has acquired the partition and waits for the write lock -/
+example : z3.wr 0 = some 1 ∧ z3.ph 1 = some (0, true) ∧ z3.ph 2 = some (0, false) ∧
+    z3.x.st.c.parts 0 = some ⟨7, 2, false⟩ := by decide
+example : ∃ z', StepW z3 z' ∧ MovesW z3 z' := write_lock_no_deadlock z3 reach_z3 2 (by simp [z3, y3, upd])
+
+end WrExample
 
 /-! non-vacuity of the caller-program theorems: a writer and a `Truncate` (with a `MAXDBSIZE` pass over source 0)
 start together; the writer creates partition 0 — a reachable state with one unfinished caller holding a partition
